@@ -129,6 +129,26 @@ func runC01(rc *RunCtx) {
 				rc.Fail("C01/credited-after-proofs-lapsed", "h=%d: prover %s counted for %d bytes at the reward block, but the files for which its last accepted valid proof is recent enough total only %d bytes", ro.Height, p, got, fresh)
 			}
 		}
+		// still listed after the reward block: only provers whose last accepted valid proof is recent enough (the reward
+		// block drops everybody else; a prover that stays listed without proving stays credited without proving)
+		for _, f := range ro.Post.Files {
+			W := f.ProofInterval
+			for _, wf := range w.Files {
+				if wf.Key() == fileKey(f) && wf.Window > 0 {
+					W = wf.Window
+				}
+			}
+			if W <= 0 || ro.Height <= f.Start+W {
+				continue
+			}
+			for _, pk := range f.Proofs {
+				p := proverOfKey(pk)
+				lv, ever := w.lastValid[p][fileKey(f)]
+				if !ever || lv < f.Start+((ro.Height-f.Start)/W-1)*W {
+					rc.Fail("C01/listed-after-proofs-lapsed", "h=%d: %s is still listed on file %s (start %d, window %d) after the reward block although its last accepted valid proof was at height %d (ever: %v)", ro.Height, p, fileKey(f)[:12], f.Start, W, lv, ever)
+				}
+			}
+		}
 		for acct, coins := range ro.Paid {
 			if coins.IsZero() {
 				continue
@@ -179,7 +199,21 @@ func runC01(rc *RunCtx) {
 	}
 	nSub := 10 + rc.Intn(15)
 	classes := []string{"honest", "honest", "other-chunk-bytes", "wrong-index", "bitflip-path", "nonjson-path", "truncated-path", "other-file-proof", "empty-item", "empty-path", "stale-replay", "index-field-tamper", "unknown-file", "wrong-start", "other-chunk-proof-claimed-as-challenge", "other-chunk-proof-claimed-as-challenge"}
+	abandonAt := -1
+	if rc.Chance(0.5) {
+		abandonAt = nSub/3 + rc.Intn(nSub/2)
+	}
 	for n := 0; n < nSub; n++ {
+		if n == abandonAt {
+			// a file nobody ever proves, posted in the middle of the history: the chain drops it at the first reward block
+			// after its first window, in the same sweep that has to deal with provers that have lapsed meanwhile
+			n0 := len(w.Files)
+			fa := gen.NewFile(randBytes(rc.Rng, int64(1+rc.Intn(3000))), chunk)
+			if _, r := w.PostFile(0, fa, 2, 0, -1); r.OK() {
+				w.Files = w.Files[:n0]
+				rc.Count("abandoned_files", 1)
+			}
+		}
 		wf := w.Files[rc.Intn(len(w.Files))]
 		signer := 1 + rc.Intn(len(c.Accs)-1)
 		honestActor := signer <= 2
